@@ -57,17 +57,26 @@ def runPhase (cfg : Cfg) (k : Nat) (front : List St) (ph : Phase) : List St :=
   let all := closure cfg k ph.allowed front []
   dedup k (all.filter (fun s => ph.stop s || ph.allowed.all (fun a => (step cfg s a).isNone)))
 
-def procActs : List Act := [.recv, .fireCtx, .fireTimeout, .respond, .close]
+/-- `process`, and the reader of `response` the harness runs from the start (it plays the task goroutine) -/
+def procOnly : List Act := [.recv, .fireCtx, .fireTimeout, .respond, .close]
 def callerActs (i : Nat) : List Act := [.check i, .send i, .bail i, .ret i]
 def callersUpTo (n : Nat) : List Act := (List.range n).flatMap callerActs
 
 /-- the scheduling constraints of a case (see harness/cmd/vh/c08.go) -/
 def phases (k : Nat) (mode variant : String) : Option (List Phase) :=
-  let envActs : List Act := if variant.startsWith "cancel" then [.cancel] else if variant.startsWith "timeout" then [.expire] else []
+  -- the reader of `response` (the harness plays the task goroutine) runs from the start, except in the `noreader`
+  -- variants where it has left on ctx.Done()
+  let noReader := (variant.splitOn "noreader").length > 1
+  let procActs : List Act := if noReader then procOnly else procOnly ++ [.consume]
+  let held : List Act := if noReader then [.recv] else [.recv, .consume]
+  let envActs : List Act :=
+    if variant.startsWith "cancel" then (if noReader then [.cancel, .leave] else [.cancel])
+    else if variant.startsWith "timeout" then [.expire] else []
   let env : Phase := { pre := envActs, allowed := procActs }
   let before := if variant.endsWith "_before" then [env] else []
-  let final : Phase := { allowed := callersUpTo k ++ procActs ++ [.consume] }
-  let variantOk := ["none", "cancel_before", "timeout_before", "cancel_parked", "timeout_parked"].contains variant
+  let final : Phase := { allowed := callersUpTo k ++ procActs }
+  let variantOk := ["none", "cancel_before", "timeout_before", "cancel_parked", "timeout_parked",
+    "cancel_noreader_before", "cancel_noreader_parked"].contains variant
   if !variantOk then none else
   match mode with
   | "seq" =>
@@ -76,8 +85,8 @@ def phases (k : Nat) (mode variant : String) : Option (List Phase) :=
   | "procheld" =>
     -- the process goroutine is parked between its receive and its send on `response`
     some (before ++ (List.range k).map (fun i =>
-      { allowed := callersUpTo (i + 1) ++ [.recv], stop := fun s => s.pc i == .returned }) ++
-      [{ allowed := callersUpTo k ++ [.recv] }, final])
+      { allowed := callersUpTo (i + 1) ++ held, stop := fun s => s.pc i == .returned }) ++
+      [{ allowed := callersUpTo k ++ held }, final])
   | "conc" => some (before ++ [final])
   | "parked" =>
     some (before ++ [{ allowed := (List.range k).map Act.check ++ procActs }] ++
@@ -140,7 +149,10 @@ def checkTT (params lines : List String) : CaseResult := Id.run do
     r := { r with specs := s!"answered_twice: the response channel delivered {outs}" :: r.specs }
   let env := variant != "none"
   match outs with
-  | [] => r := { r with specs := "no_answer: nothing was delivered on the response channel" :: r.specs }
+  | [] =>
+    -- without a reader an unbuffered response channel legitimately delivers nothing
+    if (variant.splitOn "noreader").length ≤ 1 || cfg.responseCap > 0 then
+      r := { r with specs := "no_answer: nothing was delivered on the response channel" :: r.specs }
   | o :: _ =>
     if env then
       let want := if variant.startsWith "cancel" then "err ctx" else "err timeout"
@@ -155,7 +167,10 @@ def checkTT (params lines : List String) : CaseResult := Id.run do
           r := { r with specs := s!"first_do_not_decisive: calls were sequential, delivered {o}" :: r.specs }
       | _ => r := { r with specs := s!"answer_from_nowhere: delivered {o}" :: r.specs }
   if !blocked.isEmpty then
-    if env then
+    if variant.endsWith "_before" then
+      -- the request had failed and `done` was closed before the call was made at all
+      r := { r with specs := s!"late_do_blocks: Do calls {blocked} of {k}, made after the request had failed by itself, never returned ({mode}, {variant})" :: r.specs }
+    else if env then
       r := { r with specs := s!"do_blocks_caller_after_ctx_or_timeout: Do calls {blocked} of {k} never returned ({mode}, {variant})" :: r.specs }
     else
       r := { r with specs := s!"do_blocks_third_concurrent_caller: Do calls {blocked} of {k} never returned ({mode})" :: r.specs }
@@ -425,7 +440,14 @@ def checkEng (params lines : List String) : CaseResult := Id.run do
         if !(c.proc.nodes.any (fun nd => (declOutputs nd.id).contains k)) then
           r := { r with specs := s!"undeclared_output_stored: {k}" :: r.specs }
     | _ => pure ()
+  -- further Do calls on an answered request: they must return (their lack of effect is what 1. checks: the models
+  -- never saw them)
+  for (_, w) in own do
+    match w with
+    | ["extra", n, occ, whn, "blocked"] =>
+      r := { r with specs := s!"extra_do_blocked: a further Do ({whn}) on request {n} {occ} never returned" :: r.specs }
+    | _ => pure ()
   let _ := params
-  return { r with nontrivial := r.ok && (ops.length ≥ 2) }
+  return { r with nontrivial := r.ok && (ops.length ≥ 2 || own.any (fun w => w.2.head? == some "extra")) }
 
 end Bpmn.Driver.C08
